@@ -19,7 +19,13 @@ MODEL_RUNS = [{"module": "MC_Wire"}, {"module": "MC_Replies"}]
 def rid(rng):
     if rng.random() < 0.1:      # ids / keys that look like protocol markers or like nothing at all
         return rng.choice(["f0fe01", "fef0aa", "00f0fe", "000000", "ffffff", "0a0d00"]), rng.choice(["f0", "fe", "00", "ff", "30"])
-    return rng.randbytes(3).hex(), rng.randbytes(1).hex()
+    dev, key = rng.randbytes(3).hex(), rng.randbytes(1).hex()
+    c = rng.random()
+    if c < 0.12:                # hex text is hex text in either case (ids are often copied in capitals from the device's label)
+        dev, key = dev.upper(), key.upper()
+    elif c < 0.2:
+        dev = "".join(ch.upper() if n % 2 else ch for n, ch in enumerate(dev))
+    return dev, key
 
 
 MARKER_SESSIONS = [[0xF0, 0xFE, 0x00, 0x01], [0xFE, 0xF0, 0xF0, 0xFE], [0x01, 0xF0, 0xFE, 0x02], [0x00, 0x00, 0xF0, 0xFE], [0xFE, 0xF0, 0x30, 0x00],
